@@ -28,9 +28,7 @@ if [ "$OUT" != "/verif/seeded/$NAME" ]; then
 fi
 RES=""
 for C in $CHECKS; do
-  cp evidence/$C.json /tmp/seedchk-$NAME.$C.evidence.bak 2>/dev/null
   PYVC_EVIDENCE_DIR=/tmp/scratch-evidence-$$ LOMOND_ROOT=$W timeout 1500 ./check $C > /tmp/seedchk-$NAME.$C.out 2>&1; E=$?
-  cp /tmp/seedchk-$NAME.$C.evidence.bak evidence/$C.json 2>/dev/null
   V=$(grep -c '^VIOLATION' /tmp/seedchk-$NAME.$C.out)
   NF=$(grep '^VIOLATION' /tmp/seedchk-$NAME.$C.out | grep -vc 'no-failing-input-found')
   F=$(grep '^VIOLATION' /tmp/seedchk-$NAME.$C.out | head -2 | sed 's/.*obligation=//' | tr '\n' ';')
